@@ -8,8 +8,10 @@ import (
 	"bytes"
 	stdjson "encoding/json"
 	"errors"
+	"fmt"
 	"io"
 	"testing"
+	"time"
 
 	json "github.com/go-json-experiment/json"
 	"github.com/go-json-experiment/json/jsontext"
@@ -450,5 +452,74 @@ func TestF19TokenIntRangeAtFloatBoundary(t *testing.T) {
 	}
 	if v, err := jsontext.Float(-9223372036854775808.0).Int(); err != nil || v != -9223372036854775808 {
 		t.Errorf("Float(-2^63).Int() = %d, %v; want the exact value", v, err)
+	}
+}
+
+// ---- C09 divergences repaired in /repo: each test compares v1 with the toolchain's encoding/json
+
+type f20E struct{ AB int }
+type f20S struct {
+	f20E
+	Ab int
+}
+
+// F20: no exact match, several case-insensitive candidates at different embedding depths.
+func TestF20FoldCandidateOrder(t *testing.T) {
+	var a, b f20S
+	e1, e2 := stdjson.Unmarshal([]byte(`{"ab":1}`), &a), jsonv1.Unmarshal([]byte(`{"ab":1}`), &b)
+	if (e1 == nil) != (e2 == nil) || a != b {
+		t.Errorf("classic %+v %v, v1 %+v %v", a, e1, b, e2)
+	}
+}
+
+type f23K string
+
+func (k f23K) MarshalText() ([]byte, error) { return []byte("TEXT:" + string(k)), nil }
+
+// F23: map key of kind string with a MarshalText method.
+func TestF23TextMethodOnStringKindMapKey(t *testing.T) {
+	v := map[f23K]int{"a": 1}
+	b1, e1 := stdjson.Marshal(v)
+	b2, e2 := jsonv1.Marshal(v)
+	if (e1 == nil) != (e2 == nil) || string(b1) != string(b2) {
+		t.Errorf("classic %s %v, v1 %s %v", b1, e1, b2, e2)
+	}
+}
+
+// F26: `,string` on a Go string whose inner text holds an unpaired surrogate escape.
+func TestF26StringTagInnerLoneSurrogate(t *testing.T) {
+	type S struct {
+		S string `json:",string"`
+	}
+	for _, in := range []string{`{"S":"\"\\ud800\""}`, `{"S":"\"\\u0061\""}`} {
+		var a, b S
+		e1, e2 := stdjson.Unmarshal([]byte(in), &a), jsonv1.Unmarshal([]byte(in), &b)
+		if (e1 == nil) != (e2 == nil) || a != b {
+			t.Errorf("%s: classic %+q %v, v1 %+q %v", in, a, e1, b, e2)
+		}
+	}
+}
+
+// F27: a time string spelled with an escape sequence.
+func TestF27TimeStringWithEscape(t *testing.T) {
+	in := []byte(`"2006-01-02T15:04:05\u005a"`)
+	var a, b time.Time
+	e1, e2 := stdjson.Unmarshal(in, &a), jsonv1.Unmarshal(in, &b)
+	if (e1 == nil) != (e2 == nil) {
+		t.Errorf("classic err=%v, v1 err=%v", e1, e2)
+	}
+}
+
+type f28K struct{ V string }
+
+func (j *f28K) UnmarshalJSON(b []byte) error { j.V = "J" + string(b); return nil }
+func (j *f28K) UnmarshalText(b []byte) error { j.V = "T" + string(b); return nil }
+
+// F28: map key type with both UnmarshalJSON and UnmarshalText.
+func TestF28MapKeyTypeWithUnmarshalJSON(t *testing.T) {
+	var a, b map[f28K]int
+	e1, e2 := stdjson.Unmarshal([]byte(`{"k":1}`), &a), jsonv1.Unmarshal([]byte(`{"k":1}`), &b)
+	if (e1 == nil) != (e2 == nil) || fmt.Sprint(a) != fmt.Sprint(b) {
+		t.Errorf("classic %v %v, v1 %v %v", a, e1, b, e2)
 	}
 }
